@@ -139,7 +139,7 @@ def run_check(prop, tier, keep=False, only=None, jobs=16):
                         discharged += hr.checks - len(hr.failed)
                         for f in real:
                             obl = f[0] if re.match(r"U\d+", f[0]) else "%s.implicit[%s]" % (h.unit, f[0][:60])
-                            violations.append({"obligation": obl, "harness": h.name, "module": m, "detail": f})
+                            violations.append({"obligation": obl, "harness": h.name, "module": m, "detail": f, "harness_unit": h.unit})
                         continue
                     undecided.append("%s: %s" % (h.name, hr.status))
             # ---------------------------------------------------- replay failures natively
@@ -175,7 +175,10 @@ def run_check(prop, tier, keep=False, only=None, jobs=16):
                         {True: "FAILED (counterexample reproduces)", False: "passed (lives inside a stubbed contract)",
                          None: "not run"}[native_failed], (out or "").replace("*/", "* /")))
                 v["replay"] = path
-                v["has_input"] = bool(native_failed)
+                # a native replay is only meaningful for harnesses that observe the real code directly; harnesses that
+                # observe it through recorder / contract stubs (not applied in a native run) carry the concrete values
+                # in the replay file but are reported as no-failing-input-found
+                v["has_input"] = bool(native_failed) and v["harness_unit"] in units.NATIVE_REPLAY_UNITS
     finally:
         if d and not keep:
             scratch.remove_scratch(d)
